@@ -3,6 +3,7 @@
 package c19
 
 import (
+	"sync"
 	"context"
 	"crypto/md5"
 	"crypto/sha256"
@@ -405,6 +406,106 @@ func histories(r *monitor.Run, kind string, idx int, rng *rand.Rand, nAttempts, 
 	}
 }
 
+// concurrentAdmins: several administrators change accounts at the same time (each call touches another user, so the
+// outcome does not depend on their order). What the broker enforces afterwards, and what a restarted broker loads
+// from the password file, is exactly the result of all the calls.
+func concurrentAdmins(r *monitor.Run, kind string, idx int) {
+	dir := scratch()
+	defer os.RemoveAll(dir)
+	pwFile := filepath.Join(dir, "pw.yml")
+	accounts := map[string]string{"root": "root-pw"}
+	if err := writeFile(pwFile, kind, accounts); err != nil {
+		r.Inconclusive(err.Error())
+		return
+	}
+	b, a, err := startBroker(kind, pwFile, "", false)
+	if err != nil {
+		r.Inconclusive(err.Error())
+		return
+	}
+	defer func() { b.Stop(step) }()
+	former := map[string][]string{}
+	seq := 0
+	rounds := r.Pick(12, 60)
+	for round := 0; round < rounds; round++ {
+		var wg sync.WaitGroup
+		errs := make(chan error, 16)
+		next := map[string]string{}
+		for k, v := range accounts {
+			next[k] = v
+		}
+		for w := 0; w < 8; w++ {
+			u := fmt.Sprintf("user%d", w)
+			pw := fmt.Sprintf("pw-%d-%d-%d", idx, round, w)
+			if w == round%8 && round > 0 {
+				// this one is deleted in this round (it exists since an earlier round)
+				if old, ok := accounts[u]; ok {
+					former[u] = append(former[u], old)
+				}
+				delete(next, u)
+				wg.Add(1)
+				go func() {
+					defer wg.Done()
+					if _, err := a.Delete(context.Background(), &auth.DeleteAccountRequest{Username: u}); err != nil {
+						errs <- err
+					}
+				}()
+				continue
+			}
+			if old, ok := accounts[u]; ok {
+				former[u] = append(former[u], old)
+			}
+			next[u] = pw
+			wg.Add(1)
+			go func() {
+				defer wg.Done()
+				if _, err := a.Update(context.Background(), &auth.UpdateAccountRequest{Username: u, Password: pw}); err != nil {
+					errs <- err
+				}
+			}()
+		}
+		wg.Wait()
+		select {
+		case err := <-errs:
+			r.Violation("account.concurrent_call_error", "a concurrent account call failed: "+err.Error(), nil)
+			return
+		default:
+		}
+		accounts = next
+		r.Count("concurrent_account_call_rounds", 1)
+		if round%4 != 3 && round != rounds-1 {
+			continue
+		}
+		// restart on the file the plugin wrote
+		if err := b.Stop(step); err != nil {
+			r.Inconclusive("stop: " + err.Error())
+			return
+		}
+		b, a, err = startBroker(kind, pwFile, "", false)
+		if err != nil {
+			r.Violation("restart.load_failed:hash="+kind, "restarted broker cannot load the password file written under concurrent account calls: "+err.Error(), nil)
+			return
+		}
+		r.Count("restarts", 1)
+		r.Eval(1)
+		users := make([]string, 0, 9)
+		for w := 0; w < 8; w++ {
+			users = append(users, fmt.Sprintf("user%d", w))
+		}
+		for _, u := range append(users, "root") {
+			if pw, ok := accounts[u]; ok {
+				seq++
+				checkAttempt(r, b, accounts, kind, Attempt{V: 4, HasUser: true, HasPass: true, User: u, Pass: pw, PassDesc: "correct_after_concurrent_calls", Clean: true}, fmt.Sprintf("ca%d-%d", idx, seq), "after concurrent account calls and a restart")
+			}
+			if f := former[u]; len(f) > 0 {
+				seq++
+				checkAttempt(r, b, accounts, kind, Attempt{V: 5, HasUser: true, HasPass: true, User: u, Pass: f[len(f)-1], PassDesc: "formerly_valid_concurrent", Clean: true}, fmt.Sprintf("ca%d-%d", idx, seq), "credential replaced or deleted by a concurrent account call, after a restart")
+			}
+		}
+	}
+	r.Nontrivial(fmt.Sprintf("concurrent-admins|%s|%d", kind, idx))
+}
+
 // relativePath: password_file relative to config_dir; changes must be what a restarted broker loads.
 func relativePath(r *monitor.Run) {
 	dir := scratch()
@@ -619,5 +720,6 @@ func Run(r *monitor.Run) {
 		_ = i
 	}
 	relativePath(r)
+	r.Parallel(r.Pick(2, 8), 4, func(i int) { concurrentAdmins(r, []string{auth.Plain, auth.SHA256}[i%2], i) })
 	r.Sample(map[string]any{"example_attempt": Attempt{V: 5, HasUser: true, HasPass: true, User: "alice", PassDesc: "trailing_byte", Clean: true}})
 }
